@@ -18,7 +18,7 @@ Canonical result: [rows, [[indices, values] per imported column]]; a typed colum
 import os, io, csv, json, itertools
 
 PROP, NUM = 'C05', 5
-PROPS_FILES = ['Props/C05.v']
+PROPS_FILES = ['Props/C05.v', 'Props/C05Typed.v']
 MODES = ['jit', 'nojit']
 MODES_THOROUGH = ['jit', 'nojit', 'bounds']
 LEVEL = 'proof'
@@ -752,6 +752,17 @@ def gen_typed(tier, rng):
                 for crs in crs_values(HDRS[2], tab, 'min', True, extra=0, cap=3 if big else 2):
                     n += 1
                     yield typ_case(HDRS[2], tab, 'min', True, crs, [['str'], d], offs=[0, budget, 2 * budget], mem=(n % 8 != 0))
+    # TE. long histories: 6 / 9 / 12 records read one per pass (and two, three per pass), the cell pattern rotating
+    #     through the pool, so that importer state set in pass i is used in pass i+2 .. i+11
+    for kname in kinds:
+        d, pool, _ = TYPED_KINDS[kname]
+        for r in (6, 9, 12) + ((20,) if big else ()):
+            for shift in range(len(pool)):
+                for step in ((1, 3) if big else (1,)):
+                    tab = [['r%d' % i, pool[(i * step + shift) % len(pool)]] for i in range(r)]
+                    lo, _ = min_crs(HDRS[2], tab, 'min', True)
+                    for crs in (lo, lo + 1, 2 * lo):
+                        yield typ_case(HDRS[2], tab, 'min', True, crs, [['str'], d], mem=True)
     # TC. structured random: 2..5 columns of random kinds, 3..24 rows (many reader passes), both quoting styles,
     #     CRLF, production budgets through parsers or random tight budgets through the driver
     nrand = (3000 if big else 500) * (3 if hot.changed() else 1)
@@ -953,7 +964,8 @@ RULE = ('exhaustive small scope: every table over a 9-cell grammar pool (empty, 
         'one typed column (free-text categorical x2 key tables, categorical, fixed string, bool relaxed/allow_empty, int8 relaxed, '
         'int32 allow_empty, uint8 strict, string) next to an id column, EVERY cell sequence of 3 rows over 4 cells and 4 rows over 3 '
         'cells x every supported chunk_row_size (the smallest reads one record per pass, so importer state crosses >= 3 passes); '
-        'every 3-row sequence with 1- and 3-byte value budgets through the driver (passes that commit no record); seeded random '
+        'every 3-row sequence with 1- and 3-byte value budgets through the driver (passes that commit no record); 6/9/12 records '
+        'read one, two and three per pass with the cell pattern rotating through the pool (long histories); seeded random '
         'tables of 2..5 typed columns x 3..24 rows read in 3..12 passes; lengths / pass counts around every new small literal of the '
         'tree under test; 1 typed case in 8 (random part: 4 in 10) writes into a real HDF5 dataframe (~30 ms), the others into a '
         'casting, copying memory stand-in. Non-trivial = '
@@ -968,8 +980,9 @@ ASSUMPTIONS = ['stop_after_rows is None', 'column names are distinct',
                '(float / date / datetime importers keep no state between passes beyond their append position and are covered by C06)',
                'category keys are distinct, valid UTF-8, codes in 0..127; at least one key is non-empty (a zero field_size is a zero '
                'value budget, outside the regime)']
-TECHNIQUE = ('Coq proof about a byte-for-byte Gallina model of fast_csv_reader and its window/regrowth driver + exhaustive '
-             'small-scope differential correspondence against the real import')
+TECHNIQUE = ('Coq proof about a byte-for-byte Gallina model of fast_csv_reader and its window/regrowth driver, generic in the '
+             'importer list (typed importers composed from the C06 models) + exhaustive small-scope differential '
+             'correspondence against the real import, typed schemas included')
 LEVEL_TEXT = ('Theorems in coq/Props/C05.v are about the Gallina model of the byte-level FSM and the driver; the model is tied '
               'to the repository by running the extracted model and the real import on the same generated files.')
 LEVEL_NOTE = 'Trusted: Coq kernel, extraction, harness; csv.DictReader / np.fromfile are exercised, not modelled.'
